@@ -114,6 +114,16 @@ func Palette(r *run.Rng) [64]color.RGBA {
 	if r.Chance(1, 6) {
 		return pal
 	}
+	if r.Chance(1, 12) {
+		// 64 times the same colour: the zero value of the array (all transparent),
+		// or another uniform palette
+		var u [64]color.RGBA
+		k := []color.RGBA{{}, {}, {0xff, 0xff, 0xff, 0xff}, {0x80, 0x80, 0x80, 0x80}, {0x11, 0x22, 0x33, 0x44}}[r.Intn(5)]
+		for i := range u {
+			u[i] = k
+		}
+		return u
+	}
 	n := r.Pick(1, 1, 2, 3, 8, 63, 64, r.Range(1, 64))
 	mode := r.Intn(5)
 	for i := 0; i < n; i++ {
